@@ -73,7 +73,7 @@ class SplineOperator final : public Operator {
     }
 
     const auto relativeIndex =
-        _s.getSupport().relativeFromAbsolute(intervalIndex);
+        _s.getSupport().intervalIndexFromAbsolute(intervalIndex);
 
     auto retVal = internal::make_array<T, OUTPUT_SIZE>(static_cast<T>(0));
 
